@@ -53,7 +53,7 @@ Next == MkStep \/ DeepenStep
 Spec == Init /\ [][Next]_vars
 
 ----------------------------------------------------------------------------
-InvStruct      == StructOK(P, T)                       \* C03
+InvStruct      == StructOK(P, T) /\ NoSharedChildren(T)   \* C03
 InvTiled       == EveryParentTiled(P, T)               \* C02 (order form)
 InvLeavesTile  == LeavesTileLattice(T, 0, W - 1)       \* C02 (pointwise)
 InvInsideRoot  == AllInsideRoot(T)                     \* C01 ingredient
